@@ -73,8 +73,16 @@ def run(prog: Program, L: Ledger) -> None:
     lo = hi = None
     if okz:
         try:
-            lo, hi = sp.sympify(Translator(Vocabulary()).tr(zc.args[0])), sp.sympify(Translator(Vocabulary()).tr(zc.args[1]))
-        except Unsupported:
+            # locals and module-level constants the bounds are named through (`low, high = _ZETA_BOUNDS`) are followed
+            tz = Translator(Vocabulary())
+            tz.module = gz.module
+            pre_ = [s_ for s_ in gz.body() if isinstance(s_, (ast.Assign, ast.AnnAssign)) and not any(isinstance(c_, ast.Call) for c_ in ast.walk(s_))]
+            try:
+                tz.run_block(pre_)
+            except Unsupported:
+                pass
+            lo, hi = sp.sympify(tz.tr(zc.args[0])), sp.sympify(tz.tr(zc.args[1]))
+        except (Unsupported, TypeError, sp.SympifyError):
             okz = False
     L.check(okz and lo == -1 and hi == 1, "B", "ForceBias.get_zeta", gz.where,
             f"zeta is drawn as `{norm(zc)}`: it must be uniform on [−1, 1) from the simulation generator", f"zeta range [{lo}, {hi}) ⇒ |Δx| can reach {hi}·delta·(m_min/m)^p" if okz else "", norm(zc))
